@@ -141,7 +141,8 @@ def build_harness():
         ct = open(os.path.join(hc, "Cargo.toml")).read().replace('path = "/repo/konst"', 'path = "%s/konst"' % REPO)
         open(os.path.join(hc, "Cargo.toml"), "w").write(ct)
         cfgp = os.path.join(hc, ".cargo", "config.toml")
-        open(cfgp, "w").write(open(cfgp).read().replace('target-dir = "../work/target"', 'target-dir = "%s"' % TARGET))
+        cfgt = open(cfgp).read().replace('target-dir = "../work/target"', 'target-dir = "%s"' % TARGET)
+        open(cfgp, "w").write(cfgt)
         HARNESS = hc
     lock_src = os.path.join("/repo", "Cargo.lock")
     lock_dst = os.path.join(HARNESS, "Cargo.lock")
